@@ -49,7 +49,7 @@ if "C16" in claimed:
 else: PENDING["C16"]=1
 if "C09" in claimed:
     chk("C09", "histsim", "exploration",
-        "Seeded call histories on long-lived calculators, generators, plans and evaluators (batched vs single density matrices, block-size changes incl. grids above the block cap, repeats, spin/molecule/grid/model interleavings, several live objects of one kind, forces between energy calls, aliasing, workspace reuse and buffers overwritten after return, look-alike inputs, allocator-content perturbation) are executed on the real code and compared call by call with the answers of fresh objects; calls are interrupted at seeded points (injected MemoryError / KeyboardInterrupt at the k-th Python line inside the package) and every later call on the same objects is still compared with fresh objects; all objects are dropped and collected between items of data-set loops; the calls of every fourth calculator history are re-made in a fresh interpreter in reverse order (module-level state); caller-owned inputs and option objects are digested before and after each call.",
+        "Seeded call histories on long-lived calculators, generators, plans and evaluators (batched vs single density matrices, block-size changes incl. grids above the block cap, repeats, spin/molecule/grid/model interleavings, several live objects of one kind, forces between energy calls, aliasing, workspace reuse and buffers overwritten after return, look-alike inputs, allocator-content perturbation) are executed on the real code and compared call by call with the answers of fresh objects; calls are interrupted at seeded points (injected MemoryError / KeyboardInterrupt at the k-th Python line inside the package) and every later call on the same objects is still compared with fresh objects; the shallow fault points of the call that follows a configuration switch are enumerated (set-up phase in quick, whole call in thorough); all objects are dropped and collected between items of data-set loops; the calls of every fourth calculator history are re-made in a fresh interpreter in reverse order (module-level state); caller-owned inputs and option objects are digested before and after each call.",
         "Models are synthetic; molecules <= 3 atoms (plus one-atom 86 800-point grids); allocator perturbation via glibc M_PERTURB; an interrupted call is un-acknowledged (nothing is demanded of it); tolerance 1e-10 relative separates summation-order noise (1e-16) from stale-cache effects (>=1e-9).",
         "deterministic simulation: seeded operation histories with legal-perturbation injection (batching, blocking, aliasing, buffer reuse, allocator content) and failure injection at seeded points inside calls, against a fresh-object reference model",
         "DESIGN.md §3.2")
